@@ -71,7 +71,8 @@ def harness_cfg(d, p):
     with open(path, "w") as f:
         json.dump({"algo": p["algo"], "shards": p["shards"],
                    "hash": {str(k): v for k, v in p["hash"].items()},
-                   "cfg": {k: v for k, v in p["cfg"].items() if k != "decay"}}, f)
+                   "cfg": {k: v for k, v in p["cfg"].items() if k != "decay"},
+                   "reentrant": bool(p.get("reentrant", False))}, f)
     return path
 
 
